@@ -161,7 +161,7 @@ DIGITS = '(re.union (str.to_re "0") (re.++ (re.range "1" "9") (re.* (re.range "0
 
 
 class Solver:
-    def __init__(self, tlimit_ms=20000):
+    def __init__(self, tlimit_ms=90000):
         self.queries = 0
         self.time = 0.0
         self.tlimit = tlimit_ms
@@ -295,7 +295,7 @@ class Path:
         self.covers.add(label)
 
 
-def explore(scenario, tlimit_ms=20000, max_paths=5000):
+def explore(scenario, tlimit_ms=90000, max_paths=5000):
     """scenario(P: Path) -> None.  Returns a result dict."""
     solver = Solver(tlimit_ms)
     todo = [[]]
